@@ -2,6 +2,6 @@
    sumbool map to OCaml natives; N / positive / Z / nat stay Coq inductives. *)
 From Coq Require Import List NArith ZArith Bool.
 From Coq Require Import ExtrOcamlBasic.
-Require Import Parser SBase SPrim SDir SScalar SFetch Pipe SBuf Resolver Loader PipeL Grammar CoreSchema Drivers.
+Require Import Parser SBase SPrim SDir SScalar SFetch Pipe SBuf Resolver Loader PipeL Grammar CoreSchema Wrapper Positions Drivers.
 Extraction "model.ml" run_str run_buf scan_str parse_tokens grammar_verdict run_load
-  parse_from_cow_and_metadata c08_impl_untagged_ok c08_impl_tagged_ok c08_impl_string_ok.
+  parse_from_cow_and_metadata c08_impl_untagged_ok c08_impl_tagged_ok c08_impl_string_ok hist_spec marker_ok.
